@@ -10,7 +10,7 @@ KINDS = ["unit", "skew", "ties", "zero", "straddle", "source_constants"]
 
 class C14(Prop):
     layouts = True
-    translators = ['elicitor', 'bsearch', 'rootn', 'thrrules', 'm2q']   # the three binary_search functions and Elicitor.__init__ / Elicitor.elicit regenerated from elicitation_utils.py on every run
+    translators = ['elicitor', 'bsearch', 'rootn', 'thrrules', 'm2q', 'elicitclasses']   # the three binary_search functions and Elicitor.__init__ / Elicitor.elicit regenerated from elicitation_utils.py on every run
     pid = "C14"
     sources = ["socialchoicekit/elicitation_voting.py", "socialchoicekit/elicitation_allocation.py", "socialchoicekit/elicitation_matching.py",
                "socialchoicekit/deterministic_allocation.py", "socialchoicekit/elicitation_utils.py"]
